@@ -52,13 +52,13 @@ theorem lineStart_le (inp : Bytes) : ∀ n, lineStart inp n ≤ n
     covers only bytes ≥ 0x80 (so no newline byte). -/
 theorem decodeBytes_spec (n c0 c1 c2 c3 : Nat) (hn : 1 ≤ n) (r w : Nat)
     (h : decodeBytes n c0 c1 c2 c3 = (r, w)) :
-    1 ≤ w ∧ w ≤ n ∧ (r < 128 → w = 1 ∧ c0 = r) ∧
+    1 ≤ w ∧ w ≤ n ∧ w ≤ 4 ∧ (r < 128 → w = 1 ∧ c0 = r) ∧
     (128 ≤ r → 128 ≤ c0 ∧ (2 ≤ w → 128 ≤ c1) ∧ (3 ≤ w → 128 ≤ c2) ∧ (4 ≤ w → 128 ≤ c3)) := by
   unfold decodeBytes at h
   simp only [runeError] at h
   repeat' split at h
   all_goals (simp only [Prod.mk.injEq] at h; obtain ⟨rfl, rfl⟩ := h)
   all_goals (simp only [Bool.and_eq_true, decide_eq_true_eq, ge_iff_le] at *)
-  all_goals first | omega | exact ⟨by omega, by omega, fun _ => by simp, fun _ => by omega⟩
+  all_goals first | omega | exact ⟨by omega, by omega, by omega, fun _ => by simp, fun _ => by omega⟩
 
 end Ecal.Lex
